@@ -194,6 +194,12 @@ def survivor_drains(app, clock: VirtualClock, target: str, extra: Callable | Non
     from pynenc import context, core_tasks
 
     cB = rctx("rB")
+    try:
+        # the last heartbeat of the process that died arrives after its last effect (its parent reports the children it believes alive
+        # on every loop): it does not make the dead process any more alive an hour later
+        app.orchestrator.register_runner_heartbeats(["rA"])
+    except BaseException:  # noqa: BLE001
+        pass
     clock.advance(3_600_000_000)
     app.orchestrator.register_runner_heartbeats(["rB"])
     if extra:
